@@ -167,7 +167,7 @@ def _work(spec):
             bad = ("verdict:" + ("engine-accepts-ambiguous" if not det else "engine-rejects-deterministic"),
                    "pattern '%s': reference says %s, engine %s" % (" ".join(p), "deterministic" if det else "not prefix-LR(1)",
                                                                     "rejects" if eng_rejects else "accepts"))
-        elif eng_rejects and (len(errs) != 1 or errs[0][2] != "main" or errs[0][3] != ms[0]["line"]):
+        elif eng_rejects and (len(errs) != 1 or errs[0][2] != "main" or not (ms[0]["dline"] <= errs[0][3] <= ms[0]["line"])):
             bad = ("error-position", "pattern '%s': non-linear error reported at %s, definition's first pattern token is at main:%d"
                    % (" ".join(p), [(e[2], e[3]) for e in errs], ms[0]["line"]))
         out_texts = [t[1] for t in o["out"]]
